@@ -14,6 +14,17 @@
 use super::*;
 use std::error::Error;
 
+/// zero-sized bus error (no allocation when boxed)
+#[derive(Debug)]
+struct BusFailure;
+impl std::fmt::Display for BusFailure {
+    fn fmt(&self, f: &mut std::fmt::Formatter<'_>) -> std::fmt::Result {
+        f.write_str("bus failure")
+    }
+}
+impl Error for BusFailure {}
+
+
 const STATES: [State; 13] = [
     State::Unconfigured,
     State::ConfigInProgress,
@@ -135,13 +146,8 @@ enum Rep {
     UnknownFrame(u16, u8),
     Err,
 }
-static mut EXP_MODE: u8 = 0; // cost experiments only
 fn any_reply() -> Rep {
     let k: u8 = kani::any();
-    unsafe {
-        if EXP_MODE == 1 { kani::assume(k != 3 && k != 4); }
-        if EXP_MODE == 3 { kani::assume(k <= 4); }
-    }
     let a: u16 = kani::any();
     let si: usize = kani::any();
     let oi: usize = kani::any();
@@ -162,7 +168,7 @@ fn reply_value<'a>(r: Rep) -> Result<Option<Message<'a>>, Box<dyn Error + Send +
         Rep::Ack(a, oi) => Ok(Some(Message::AckOperation(Address(a), OPS[oi]))),
         Rep::OtherMsg(a) => Ok(Some(Message::Goodbye(Address(a)))),
         Rep::UnknownFrame(a, t) => Ok(Some(Message::Unknown(crate::core::Frame::new(Address(a), crate::core::MsgType(t), Data::from(&[]))))),
-        Rep::Err => Err("bus failure".into()),
+        Rep::Err => Err(Box::new(BusFailure)),
     }
 }
 
@@ -200,6 +206,11 @@ enum Kind {
     SendPages,
     ShutDown,
     Switch,
+    EnsureUnconfigured, // unit: Sign::ensure_unconfigured alone
+    SendDataConfig,     // unit: Sign::send_data with the configuration item
+    SendDataPages,      // unit: Sign::send_data with page items
+    SendPagesTail,      // unit: the part of send_pages after send_data (PixelsComplete, QueryState)
+    Transport,          // units: send_message / send_message_expect_response: no protocol, one exchange, any message
 }
 
 const MAX_ITEMS: usize = 3;
@@ -221,6 +232,8 @@ struct Bus {
     sw_op: usize,
     max_polls: usize,
     polls: usize,
+    // attempts before this one are 'clean failed attempts': their replies are forced to the allowed ones
+    free_attempt: u32,
     // monitor state
     phase: Phase,
     attempt: u32,
@@ -237,6 +250,8 @@ struct Bus {
     retry_without_failed_report: bool,
     last_query_reply_own_success: bool,
     n_msgs: usize,
+    last_out: Out,
+    last_rep: Rep,
 }
 
 impl Bus {
@@ -255,6 +270,7 @@ impl Bus {
             sw_op: 0,
             max_polls: 0,
             polls: 0,
+            free_attempt: 1,
             phase,
             attempt: 1,
             item: 0,
@@ -269,12 +285,32 @@ impl Bus {
             retry_without_failed_report: false,
             last_query_reply_own_success: false,
             n_msgs: 0,
+            last_out: Out::Other,
+            last_rep: Rep::None,
         }
     }
 
     fn finish(&mut self, o: Outcome) {
         self.outcome = o;
         self.phase = Phase::Done;
+    }
+
+    /// the sign is known to be unconfigured: the transfer follows (or, for the ensure_unconfigured unit, the unit is done)
+    fn unconfigured_reached(&mut self) {
+        if self.kind == Kind::EnsureUnconfigured {
+            self.finish(Outcome::Ok)
+        } else {
+            self.phase = Phase::ReqRecv
+        }
+    }
+
+    /// the one reply that lets a clean failed attempt proceed in the current phase
+    fn forced_reply(&self) -> Rep {
+        match self.phase {
+            Phase::ReqRecv => Rep::Ack(self.own, self.recv_op),
+            Phase::QueryResult => Rep::Report(self.own, self.failure),
+            _ => Rep::None,
+        }
     }
 
     /// first data phase of an attempt, or straight to the count when there is nothing to send
@@ -309,7 +345,7 @@ impl Bus {
                     Out::Data(o, p, l) => {
                         assert!(o as usize == off); // offsets 0, 16, 32, ... within the item
                         assert!(l == n); // at most 16 bytes, all of the rest of the item
-                        if self.kind == Kind::Configure {
+                        if self.kind == Kind::Configure || self.kind == Kind::SendDataConfig {
                             // the configuration sent is exactly the 16-byte block of the sign type
                             if let Message::SendData(_, d) = m {
                                 let sent: [u8; 16] = match <[u8; 16]>::try_from(&d.get()[..]) {
@@ -354,10 +390,10 @@ impl Bus {
                 }
             }
             Phase::Hello0 => {
-                self.phase = match r {
-                    Rep::Report(a, s) if a == own && s == S_UNCONF => Phase::ReqRecv,
-                    Rep::Report(a, s) if a == own && s == S_READY_RESET => Phase::FinishReset,
-                    _ => Phase::StartReset,
+                match r {
+                    Rep::Report(a, s) if a == own && s == S_UNCONF => self.unconfigured_reached(),
+                    Rep::Report(a, s) if a == own && s == S_READY_RESET => self.phase = Phase::FinishReset,
+                    _ => self.phase = Phase::StartReset,
                 }
             }
             Phase::StartReset => {
@@ -383,7 +419,7 @@ impl Bus {
             }
             Phase::HelloUnconf => {
                 if r == Rep::Report(own, S_UNCONF) {
-                    self.phase = Phase::ReqRecv
+                    self.unconfigured_reached()
                 } else {
                     self.finish(Outcome::Unexpected)
                 }
@@ -502,12 +538,28 @@ impl Bus {
     }
 }
 
-impl SignBus for Bus {
-    fn process_message<'a>(&mut self, message: Message<'_>) -> Result<Option<Message<'a>>, Box<dyn Error + Send + Sync>> {
+impl Bus {
+    /// one exchange: check the outgoing message against the protocol, pick a reply, advance monitor and log invariants
+    fn exchange(&mut self, message: &Message<'_>) -> Rep {
         self.n_msgs += 1;
         assert!(self.n_msgs <= LOG); // conversations are bounded by the protocol itself
-        self.check_message(&message);
-        let mut r = any_reply();
+        self.last_out = out_of(message);
+        if self.kind == Kind::Transport {
+            let r = any_reply();
+            self.last_rep = r;
+            return r;
+        }
+        self.check_message(message);
+        // attempts before `free_attempt` are clean failed attempts with the one allowed reply each (see run_send_data)
+        let r = if self.attempt < self.free_attempt { self.forced_reply() } else { any_reply() };
+        if (self.kind == Kind::SendDataConfig || self.kind == Kind::SendDataPages)
+            && self.phase == Phase::QueryResult
+            && self.attempt == self.free_attempt
+            && self.free_attempt < 3
+        {
+            // scripts in which attempt A is itself a clean failed attempt belong to the harness for A + 1
+            kani::assume(r != Rep::Report(self.own, self.failure));
+        }
         if self.kind == Kind::Switch && self.n_msgs >= self.max_polls {
             // bounded stand-in for the unbounded loop of switch_page (it polls while the sign reports an in-progress
             // state and re-requests while it reports the trigger state): after max_polls exchanges the sign must
@@ -517,12 +569,64 @@ impl SignBus for Bus {
                 kani::assume(r != Rep::Ack(self.own, self.sw_op));
             }
         }
-        if unsafe { EXP_MODE } != 2 {
-            self.log_invariants(&message, r);
-        }
+        self.log_invariants(message, r);
         self.advance(r);
+        self.last_rep = r;
+        r
+    }
+}
+
+impl SignBus for Bus {
+    fn process_message<'a>(&mut self, message: Message<'_>) -> Result<Option<Message<'a>>, Box<dyn Error + Send + Sync>> {
+        let r = self.exchange(&message);
         core::mem::forget(message);
         reply_value(r)
+    }
+}
+
+// ---- contract stubs for the two private transport functions of Sign -------------------------------------------
+// Sign::send_message(m)                       = hand m to the bus; return its reply, or SignError::Bus if the bus failed
+// Sign::send_message_expect_response(m, e)    = send_message(m)?; Ok(()) iff the reply equals e, else UnexpectedResponse
+// These two contracts are proved about the REAL functions against the real Rc<RefCell<dyn SignBus>> plumbing by
+// c10_unit_send_message / c10_unit_send_message_expect_response (one exchange each, every message, every reply). Every
+// longer conversation is then verified with the two functions replaced by these stubs (caller against callee contract),
+// which keeps RefCell / dyn dispatch / Box<dyn Error> out of the long harnesses.
+static mut MON: *mut Bus = core::ptr::null_mut();
+
+fn mon_exchange(message: &Message<'_>) -> Rep {
+    let b: &mut Bus = unsafe { &mut *MON };
+    b.exchange(message)
+}
+
+fn stub_send_message<'s>(_s: &'s Sign, message: Message<'_>) -> Result<Option<Message<'s>>, SignError> {
+    let r = mon_exchange(&message);
+    core::mem::forget(message);
+    match reply_value(r) {
+        Ok(x) => Ok(x),
+        Err(e) => Err(SignError::Bus { source: e }),
+    }
+}
+
+/// does the abstract reply equal the expected response?
+fn rep_matches(r: Rep, expected: &Option<Message<'_>>) -> bool {
+    match expected {
+        None => r == Rep::None,
+        Some(Message::AckOperation(a, o)) => r == Rep::Ack(a.0, op_idx(*o)),
+        Some(Message::ReportState(a, s)) => r == Rep::Report(a.0, state_idx(*s)),
+        Some(Message::Goodbye(a)) => r == Rep::OtherMsg(a.0),
+        Some(_) => false, // the controller never expects anything else
+    }
+}
+
+fn stub_send_message_expect_response(_s: &Sign, message: Message<'_>, expected: &Option<Message<'_>>) -> Result<(), SignError> {
+    let r = mon_exchange(&message);
+    core::mem::forget(message);
+    if r == Rep::Err {
+        Err(SignError::Bus { source: Box::new(BusFailure) })
+    } else if rep_matches(r, expected) {
+        Ok(())
+    } else {
+        Err(SignError::UnexpectedResponse { expected: String::new(), actual: String::new() })
     }
 }
 
@@ -567,6 +671,9 @@ fn run_configure(if_needed: bool) {
     bus.items[0] = (core::ptr::null(), 16);
     bus.config = config_of(t);
     let rc = Rc::new(RefCell::new(bus));
+    unsafe {
+        MON = rc.as_ptr(); // the contract stubs of send_message / send_message_expect_response talk to the monitor directly
+    }
     let dynbus: Rc<RefCell<dyn SignBus>> = rc.clone();
     let sign = Sign::new(dynbus, Address(own), t);
     let r = if if_needed { sign.configure_if_needed() } else { sign.configure() };
@@ -580,16 +687,16 @@ fn run_configure(if_needed: bool) {
         assert!(b.last_query_reply_own_success); // success only if the concluding report was 'received' from the own address
     }
     kani::cover!(r.is_ok() && b.attempt == 3, "cov_ok_on_third_attempt");
-    kani::cover!(r.is_ok() && b.recv_requests == 0, "cov_ok_without_transfer");
     kani::cover!(b.outcome == Outcome::Unexpected && b.attempt == 3, "cov_gives_up");
-    kani::cover!(b.outcome == Outcome::BusError && b.n_msgs > 8, "cov_late_bus_error");
-    kani::cover!(r.is_ok() && b.n_msgs >= 19, "cov_longest_conversation");
+    kani::cover!(r.is_ok() && b.n_msgs >= 17, "cov_longest_conversation");
     core::mem::forget(r);
 }
 
 #[kani::proof]
 #[kani::unwind(4)]
 #[kani::stub(alloc::fmt::format, stub_format)]
+#[kani::stub(Sign::send_message, stub_send_message)]
+#[kani::stub(Sign::send_message_expect_response, stub_send_message_expect_response)]
 fn c10_configure_all_reply_scripts() {
     run_configure(false);
 }
@@ -597,8 +704,468 @@ fn c10_configure_all_reply_scripts() {
 #[kani::proof]
 #[kani::unwind(4)]
 #[kani::stub(alloc::fmt::format, stub_format)]
+#[kani::stub(Sign::send_message, stub_send_message)]
+#[kani::stub(Sign::send_message_expect_response, stub_send_message_expect_response)]
 fn c10_configure_if_needed_all_reply_scripts() {
     run_configure(true);
+}
+
+// ------------------------------------------------------------------------------------------ transport units (real plumbing)
+fn any_out_message<'a>(own: u16) -> Message<'a> {
+    let k: u8 = kani::any();
+    let oi: usize = kani::any();
+    kani::assume(oi < 6);
+    match k {
+        0 => Message::Hello(Address(own)),
+        1 => Message::QueryState(Address(own)),
+        2 => Message::RequestOperation(Address(own), OPS[oi]),
+        3 => Message::DataChunksSent(ChunkCount(kani::any())),
+        4 => Message::PixelsComplete(Address(own)),
+        5 => Message::Goodbye(Address(own)),
+        _ => Message::SendData(Offset(kani::any()), Data::from(&[1, 2, 3])),
+    }
+}
+
+/// unit: the REAL Sign::send_message over the real Rc<RefCell<dyn SignBus>>: exactly one bus call with exactly that
+/// message; the reply is returned unchanged; a bus failure becomes SignError::Bus.
+#[kani::proof]
+#[kani::unwind(4)]
+#[kani::stub(alloc::fmt::format, stub_format)]
+fn c10_unit_send_message() {
+    let own: u16 = kani::any();
+    let mut bus = Bus::new(own, Kind::Transport, Phase::Done);
+    let rc = Rc::new(RefCell::new(bus));
+    let dynbus: Rc<RefCell<dyn SignBus>> = rc.clone();
+    let sign = Sign::new(dynbus, Address(own), any_type());
+    let m = any_out_message(own);
+    let want = out_of(&m);
+    let r = sign.send_message(m);
+    let b = rc.borrow();
+    assert!(b.n_msgs == 1 && b.last_out == want);
+    match (&r, b.last_rep) {
+        (Ok(None), Rep::None) => {}
+        (Ok(Some(Message::ReportState(a, s))), Rep::Report(ra, rs)) => assert!(a.0 == ra && state_idx(*s) == rs),
+        (Ok(Some(Message::AckOperation(a, o))), Rep::Ack(ra, ro)) => assert!(a.0 == ra && op_idx(*o) == ro),
+        (Ok(Some(Message::Goodbye(a))), Rep::OtherMsg(ra)) => assert!(a.0 == ra),
+        (Ok(Some(Message::Unknown(f))), Rep::UnknownFrame(ra, rt)) => assert!(f.address().0 == ra && f.message_type().0 == rt),
+        (Err(SignError::Bus { .. }), Rep::Err) => {}
+        _ => panic!("send_message did not return the bus's answer"),
+    }
+    kani::cover!(r.is_err(), "cov_bus_error");
+    kani::cover!(matches!(r, Ok(Some(_))), "cov_reply");
+    core::mem::forget(r);
+}
+
+/// unit: the REAL Sign::send_message_expect_response: Ok iff the reply equals the expected response (None, an
+/// acknowledgement or a state report from the own address), UnexpectedResponse for every other reply, Bus for a bus failure.
+#[kani::proof]
+#[kani::unwind(4)]
+#[kani::stub(alloc::fmt::format, stub_format)]
+fn c10_unit_send_message_expect_response() {
+    let own: u16 = kani::any();
+    let mut bus = Bus::new(own, Kind::Transport, Phase::Done);
+    let rc = Rc::new(RefCell::new(bus));
+    let dynbus: Rc<RefCell<dyn SignBus>> = rc.clone();
+    let sign = Sign::new(dynbus, Address(own), any_type());
+    let m = any_out_message(own);
+    let want = out_of(&m);
+    let ek: u8 = kani::any();
+    let (si, oi): (usize, usize) = (kani::any(), kani::any());
+    kani::assume(si < 13 && oi < 6);
+    let expected: Option<Message<'_>> = match ek {
+        0 => None,
+        1 => Some(Message::AckOperation(Address(own), OPS[oi])),
+        _ => Some(Message::ReportState(Address(own), STATES[si])),
+    };
+    let r = sign.send_message_expect_response(m, &expected);
+    let b = rc.borrow();
+    assert!(b.n_msgs == 1 && b.last_out == want);
+    match (&r, b.last_rep) {
+        (Err(SignError::Bus { .. }), Rep::Err) => {}
+        (_, Rep::Err) => panic!("bus failure not propagated"),
+        (Ok(()), rep) => assert!(rep_matches(rep, &expected)),
+        (Err(SignError::UnexpectedResponse { .. }), rep) => assert!(!rep_matches(rep, &expected)),
+        _ => panic!("wrong error kind"),
+    }
+    kani::cover!(r.is_ok() && ek == 0, "cov_ok_none");
+    kani::cover!(r.is_ok() && ek == 1, "cov_ok_ack");
+    kani::cover!(matches!(r, Err(SignError::UnexpectedResponse { .. })) && ek == 2, "cov_unexpected_report");
+    core::mem::forget(r);
+}
+
+// ------------------------------------------------------------------------------------------ modular units
+// configure() = ensure_unconfigured()? ; send_data(once(to_bytes), ReceiveConfig, ConfigReceived, ConfigFailed)
+// send_pages() = send_data(pages.map(as_bytes), ReceivePixels, PixelsReceived, PixelsFailed)? ; PixelsComplete ; QueryState
+// Each callee is verified against the monitor on its own (all reply scripts), and each caller is verified with its
+// callees replaced by contract stubs (`#[kani::stub]`): modular verification, caller against callee contract.
+
+/// unit: ensure_unconfigured against every reply script (<= 7 exchanges)
+#[kani::proof]
+#[kani::unwind(4)]
+#[kani::stub(alloc::fmt::format, stub_format)]
+#[kani::stub(Sign::send_message, stub_send_message)]
+#[kani::stub(Sign::send_message_expect_response, stub_send_message_expect_response)]
+fn c10_ensure_unconfigured_all_reply_scripts() {
+    let own: u16 = kani::any();
+    let bus = Bus::new(own, Kind::EnsureUnconfigured, Phase::Hello0);
+    let rc = Rc::new(RefCell::new(bus));
+    unsafe {
+        MON = rc.as_ptr(); // the contract stubs of send_message / send_message_expect_response talk to the monitor directly
+    }
+    let dynbus: Rc<RefCell<dyn SignBus>> = rc.clone();
+    let sign = Sign::new(dynbus, Address(own), any_type());
+    let r = sign.ensure_unconfigured();
+    let b = rc.borrow();
+    assert!(b.phase == Phase::Done);
+    assert!(outcome_of(&r) == b.outcome);
+    c11_common(&b);
+    assert!(b.recv_requests == 0);
+    kani::cover!(r.is_ok() && b.n_msgs == 1, "cov_already_unconfigured");
+    kani::cover!(r.is_ok() && b.n_msgs == 3, "cov_finish_reset_only");
+    kani::cover!(r.is_ok() && b.n_msgs == 5, "cov_full_reset_dance");
+    kani::cover!(b.outcome == Outcome::Unexpected && b.n_msgs == 5, "cov_late_unexpected");
+    kani::cover!(b.outcome == Outcome::BusError, "cov_bus_error");
+    core::mem::forget(r);
+}
+
+/// unit: send_data. `free_attempt` = A: attempts 1..A-1 are clean failed attempts (the allowed replies, then the own
+/// 'failed' report); attempt A is answered arbitrarily, except that for A < 3 it is not itself a clean failed attempt
+/// (those scripts belong to A + 1). Every reply script falls in exactly one class A = 1, 2, 3: A is the first attempt
+/// that is not a clean failed attempt (or 3). So the three harnesses together are complete over all scripts.
+fn run_send_data_config(free_attempt: u32) {
+    let own: u16 = kani::any();
+    let t = any_type();
+    let mut bus = Bus::new(own, Kind::SendDataConfig, Phase::ReqRecv);
+    bus.n_items = 1;
+    bus.items[0] = (core::ptr::null(), 16);
+    bus.config = config_of(t);
+    bus.free_attempt = free_attempt;
+    let rc = Rc::new(RefCell::new(bus));
+    unsafe {
+        MON = rc.as_ptr(); // the contract stubs of send_message / send_message_expect_response talk to the monitor directly
+    }
+    let dynbus: Rc<RefCell<dyn SignBus>> = rc.clone();
+    let sign = Sign::new(dynbus, Address(own), t);
+    let config = t.to_bytes();
+    let r = sign.send_data(&iter::once(config), Operation::ReceiveConfig, State::ConfigReceived, State::ConfigFailed);
+    let b = rc.borrow();
+    assert!(b.phase == Phase::Done);
+    assert!(outcome_of(&r) == b.outcome);
+    c11_common(&b);
+    if r.is_ok() {
+        assert!(b.last_query_reply_own_success);
+    }
+    assert!(b.recv_requests == free_attempt && b.attempt == free_attempt);
+    kani::cover!(r.is_ok() && b.attempt == free_attempt, "cov_ok_in_free_attempt");
+    kani::cover!(b.outcome == Outcome::Unexpected && b.attempt == free_attempt, "cov_unexpected_in_free_attempt");
+    kani::cover!(b.outcome == Outcome::BusError, "cov_bus_error");
+    core::mem::forget(r);
+}
+#[kani::proof]
+#[kani::unwind(4)]
+#[kani::stub(alloc::fmt::format, stub_format)]
+#[kani::stub(Sign::send_message, stub_send_message)]
+#[kani::stub(Sign::send_message_expect_response, stub_send_message_expect_response)]
+fn c09_send_data_config_attempt1() {
+    run_send_data_config(1);
+}
+#[kani::proof]
+#[kani::unwind(4)]
+#[kani::stub(alloc::fmt::format, stub_format)]
+#[kani::stub(Sign::send_message, stub_send_message)]
+#[kani::stub(Sign::send_message_expect_response, stub_send_message_expect_response)]
+fn c09_send_data_config_attempt2() {
+    run_send_data_config(2);
+}
+#[kani::proof]
+#[kani::unwind(4)]
+#[kani::stub(alloc::fmt::format, stub_format)]
+#[kani::stub(Sign::send_message, stub_send_message)]
+#[kani::stub(Sign::send_message_expect_response, stub_send_message_expect_response)]
+fn c09_send_data_config_attempt3() {
+    run_send_data_config(3);
+}
+
+fn run_send_data_pages<const N: usize>(dims: [(u32, u32); N], bufs: &[[u8; 64]; N], free_attempt: u32) {
+    let own: u16 = kani::any();
+    let mut bus = Bus::new(own, Kind::SendDataPages, Phase::ReqRecv);
+    bus.recv_op = O_RECV_PIX;
+    bus.success = S_PIX_RECV;
+    bus.failure = S_PIX_FAIL;
+    bus.n_items = N;
+    bus.free_attempt = free_attempt;
+    let mut pages: Vec<Page<'_>> = Vec::with_capacity(N);
+    let mut i = 0;
+    while i < N {
+        let (w, h) = dims[i];
+        let len = (4 + (w as usize) * ((h as usize + 7) / 8) + 15) / 16 * 16;
+        assert!(len <= 64);
+        match Page::from_bytes(w, h, &bufs[i][..len]) {
+            Ok(p) => pages.push(p),
+            Err(e) => {
+                core::mem::forget(e);
+                panic!("page construction")
+            }
+        }
+        bus.items[i] = (bufs[i].as_ptr(), len);
+        i += 1;
+    }
+    let rc = Rc::new(RefCell::new(bus));
+    unsafe {
+        MON = rc.as_ptr(); // the contract stubs of send_message / send_message_expect_response talk to the monitor directly
+    }
+    let dynbus: Rc<RefCell<dyn SignBus>> = rc.clone();
+    let sign = Sign::new(dynbus, Address(own), any_type());
+    let data = pages.iter().map(Page::as_bytes);
+    let r = sign.send_data(&data, Operation::ReceivePixels, State::PixelsReceived, State::PixelsFailed);
+    let b = rc.borrow();
+    assert!(b.phase == Phase::Done);
+    assert!(outcome_of(&r) == b.outcome);
+    c11_common(&b);
+    if r.is_ok() {
+        assert!(b.last_query_reply_own_success);
+    }
+    kani::cover!(r.is_ok() && b.attempt == free_attempt, "cov_ok_in_free_attempt");
+    kani::cover!(b.outcome == Outcome::Unexpected && b.attempt == free_attempt, "cov_unexpected_in_free_attempt");
+    core::mem::forget(r);
+}
+macro_rules! send_data_pages_harness {
+    ($name:ident, $n:expr, $dims:expr, $a:expr) => {
+        #[kani::proof]
+        #[kani::unwind(5)]
+        #[kani::stub(alloc::fmt::format, stub_format)]
+#[kani::stub(Sign::send_message, stub_send_message)]
+#[kani::stub(Sign::send_message_expect_response, stub_send_message_expect_response)]
+        fn $name() {
+            let bufs: [[u8; 64]; $n] = kani::any();
+            run_send_data_pages::<$n>($dims, &bufs, $a);
+        }
+    };
+}
+send_data_pages_harness!(c09_send_data_no_pages_attempt1, 0, [], 1);
+send_data_pages_harness!(c09_send_data_no_pages_attempt2, 0, [], 2);
+send_data_pages_harness!(c09_send_data_no_pages_attempt3, 0, [], 3);
+send_data_pages_harness!(c09_send_data_page48_attempt1, 1, [(30, 7)], 1);
+send_data_pages_harness!(c09_send_data_page48_attempt2, 1, [(30, 7)], 2);
+send_data_pages_harness!(c09_send_data_page48_attempt3, 1, [(30, 7)], 3);
+send_data_pages_harness!(c09_send_data_pages_16_32_attempt1, 2, [(2, 8), (20, 8)], 1);
+send_data_pages_harness!(c09_send_data_pages_16_32_attempt2, 2, [(2, 8), (20, 8)], 2);
+send_data_pages_harness!(c09_send_data_pages_16_32_attempt3, 2, [(2, 8), (20, 8)], 3);
+
+// ---- callers, with callee contracts (stubs) -----------------------------------------------------------------
+static mut CALLS: [u8; 4] = [0; 4]; // 1 = ensure_unconfigured, 2 = send_data, 3 = configure
+static mut NCALLS: usize = 0;
+static mut CALLEE_RESULT: [u8; 4] = [0; 4]; // per call: 0 Ok, 1 UnexpectedResponse, 2 Bus
+static mut SD_OP: usize = 9;
+static mut SD_SUCCESS: usize = 99;
+static mut SD_FAILURE: usize = 99;
+static mut SD_ITEMS: [(*const u8, usize); 3] = [(core::ptr::null(), 0); 3];
+static mut SD_NITEMS: usize = 0;
+
+fn callee_result(k: u8) -> Result<(), SignError> {
+    unsafe {
+        let i = NCALLS;
+        if i < 4 {
+            CALLS[i] = k;
+        }
+        NCALLS += 1;
+        let c = if i < 4 { CALLEE_RESULT[i] } else { 0 };
+        match c {
+            0 => Ok(()),
+            1 => Err(SignError::UnexpectedResponse { expected: String::new(), actual: String::new() }),
+            _ => Err(SignError::Bus { source: Box::new(BusFailure) }),
+        }
+    }
+}
+fn stub_ensure_unconfigured(_s: &Sign) -> Result<(), SignError> {
+    callee_result(1)
+}
+fn stub_configure(_s: &Sign) -> Result<(), SignError> {
+    callee_result(3)
+}
+fn stub_send_data<'a, I>(_s: &Sign, data: &I, operation: Operation, success: State, failure: State) -> Result<(), SignError>
+where
+    I: Iterator<Item = &'a [u8]> + Clone,
+{
+    unsafe {
+        SD_OP = op_idx(operation);
+        SD_SUCCESS = state_idx(success);
+        SD_FAILURE = state_idx(failure);
+        let mut n = 0;
+        for item in data.clone() {
+            if n < 3 {
+                SD_ITEMS[n] = (item.as_ptr(), item.len());
+            }
+            n += 1;
+        }
+        SD_NITEMS = n;
+    }
+    callee_result(2)
+}
+fn reset_calls() {
+    unsafe {
+        NCALLS = 0;
+        CALLS = [0; 4];
+        CALLEE_RESULT = kani::any();
+        kani::assume(CALLEE_RESULT[0] <= 2 && CALLEE_RESULT[1] <= 2 && CALLEE_RESULT[2] <= 2 && CALLEE_RESULT[3] <= 2);
+    }
+}
+fn outcome_code(c: u8) -> Outcome {
+    match c {
+        0 => Outcome::Ok,
+        1 => Outcome::Unexpected,
+        _ => Outcome::BusError,
+    }
+}
+
+/// caller: configure() = ensure_unconfigured, then (only if that succeeded) send_data with exactly the sign type's
+/// 16-byte block, ReceiveConfig, ConfigReceived / ConfigFailed; the first callee error is returned; no bus traffic of its own.
+#[kani::proof]
+#[kani::unwind(4)]
+#[kani::stub(alloc::fmt::format, stub_format)]
+#[kani::stub(Sign::send_message, stub_send_message)]
+#[kani::stub(Sign::send_message_expect_response, stub_send_message_expect_response)]
+#[kani::stub(Sign::ensure_unconfigured, stub_ensure_unconfigured)]
+#[kani::stub(Sign::send_data, stub_send_data)]
+fn c10_configure_composition() {
+    let own: u16 = kani::any();
+    let t = any_type();
+    reset_calls();
+    let bus = Bus::new(own, Kind::Configure, Phase::Done); // any message to the bus is a violation
+    let rc = Rc::new(RefCell::new(bus));
+    unsafe {
+        MON = rc.as_ptr(); // the contract stubs of send_message / send_message_expect_response talk to the monitor directly
+    }
+    let dynbus: Rc<RefCell<dyn SignBus>> = rc.clone();
+    let sign = Sign::new(dynbus, Address(own), t);
+    let r = sign.configure();
+    let (calls, n, res) = unsafe { (CALLS, NCALLS, CALLEE_RESULT) };
+    assert!(rc.borrow().n_msgs == 0);
+    assert!(n >= 1 && calls[0] == 1);
+    if res[0] != 0 {
+        assert!(n == 1 && outcome_of(&r) == outcome_code(res[0])); // fail-stop
+    } else {
+        assert!(n == 2 && calls[1] == 2);
+        assert!(outcome_of(&r) == outcome_code(res[1]));
+        let (op, su, fa, items, ni) = unsafe { (SD_OP, SD_SUCCESS, SD_FAILURE, SD_ITEMS, SD_NITEMS) };
+        assert!(op == O_RECV_CFG && su == S_CFG_RECV && fa == S_CFG_FAIL);
+        assert!(ni == 1 && items[0].1 == 16 && items[0].0 == t.to_bytes().as_ptr());
+    }
+    kani::cover!(r.is_ok(), "cov_ok");
+    kani::cover!(n == 1 && !r.is_ok(), "cov_stops_after_failed_reset");
+    core::mem::forget(r);
+}
+
+/// caller: configure_if_needed() = Hello; a ready state reported by the own address => nothing else; otherwise configure().
+#[kani::proof]
+#[kani::unwind(4)]
+#[kani::stub(alloc::fmt::format, stub_format)]
+#[kani::stub(Sign::send_message, stub_send_message)]
+#[kani::stub(Sign::send_message_expect_response, stub_send_message_expect_response)]
+#[kani::stub(Sign::configure, stub_configure)]
+fn c10_configure_if_needed_composition() {
+    let own: u16 = kani::any();
+    reset_calls();
+    let mut bus = Bus::new(own, Kind::Configure, Phase::IfNeededHello);
+    let rc = Rc::new(RefCell::new(bus));
+    unsafe {
+        MON = rc.as_ptr(); // the contract stubs of send_message / send_message_expect_response talk to the monitor directly
+    }
+    let dynbus: Rc<RefCell<dyn SignBus>> = rc.clone();
+    let sign = Sign::new(dynbus, Address(own), any_type());
+    let r = sign.configure_if_needed();
+    let b = rc.borrow();
+    let (calls, n, res) = unsafe { (CALLS, NCALLS, CALLEE_RESULT) };
+    assert!(b.n_msgs == 1); // exactly the Hello; everything else is configure()'s business
+    c11_common(&b);
+    if b.outcome == Outcome::BusError {
+        assert!(n == 0 && outcome_of(&r) == Outcome::BusError);
+    } else if b.phase == Phase::Done {
+        assert!(n == 0 && r.is_ok()); // a ready state from the own address: trusted, nothing sent
+    } else {
+        assert!(b.phase == Phase::Hello0); // the monitor expects configure() to start now
+        assert!(n == 1 && calls[0] == 3 && outcome_of(&r) == outcome_code(res[0]));
+    }
+    kani::cover!(n == 0 && r.is_ok(), "cov_trusted_ready_sign");
+    kani::cover!(n == 1 && r.is_ok(), "cov_configured");
+    kani::cover!(n == 1 && !r.is_ok(), "cov_configure_failed");
+    core::mem::forget(r);
+}
+
+/// caller: send_pages(pages) = send_data(the pages' byte images in order, ReceivePixels, PixelsReceived / PixelsFailed),
+/// then PixelsComplete (no reply allowed), then QueryState whose reply decides the flip style.
+#[kani::proof]
+#[kani::unwind(5)]
+#[kani::stub(alloc::fmt::format, stub_format)]
+#[kani::stub(Sign::send_message, stub_send_message)]
+#[kani::stub(Sign::send_message_expect_response, stub_send_message_expect_response)]
+#[kani::stub(Sign::send_data, stub_send_data)]
+fn c10_send_pages_composition() {
+    let own: u16 = kani::any();
+    reset_calls();
+    let bufs: [[u8; 64]; 2] = kani::any();
+    let n_pages: usize = kani::any();
+    kani::assume(n_pages <= 2);
+    let mut pages: Vec<Page<'_>> = Vec::with_capacity(2);
+    if n_pages >= 1 {
+        match Page::from_bytes(2, 8, &bufs[0][..16]) {
+            Ok(p) => pages.push(p),
+            Err(e) => {
+                core::mem::forget(e);
+                panic!("page construction")
+            }
+        }
+    }
+    if n_pages >= 2 {
+        match Page::from_bytes(30, 7, &bufs[1][..48]) {
+            Ok(p) => pages.push(p),
+            Err(e) => {
+                core::mem::forget(e);
+                panic!("page construction")
+            }
+        }
+    }
+    let mut bus = Bus::new(own, Kind::SendPagesTail, Phase::PixelsComplete);
+    let rc = Rc::new(RefCell::new(bus));
+    unsafe {
+        MON = rc.as_ptr(); // the contract stubs of send_message / send_message_expect_response talk to the monitor directly
+    }
+    let dynbus: Rc<RefCell<dyn SignBus>> = rc.clone();
+    let sign = Sign::new(dynbus, Address(own), any_type());
+    let r = sign.send_pages(&pages);
+    let b = rc.borrow();
+    let (calls, n, res) = unsafe { (CALLS, NCALLS, CALLEE_RESULT) };
+    assert!(n == 1 && calls[0] == 2);
+    let (op, su, fa, items, ni) = unsafe { (SD_OP, SD_SUCCESS, SD_FAILURE, SD_ITEMS, SD_NITEMS) };
+    assert!(op == O_RECV_PIX && su == S_PIX_RECV && fa == S_PIX_FAIL);
+    assert!(ni == n_pages);
+    if n_pages >= 1 {
+        assert!(items[0] == (bufs[0].as_ptr(), 16));
+    }
+    if n_pages >= 2 {
+        assert!(items[1] == (bufs[1].as_ptr(), 48));
+    }
+    c11_common(&b);
+    if res[0] != 0 {
+        assert!(b.n_msgs == 0); // fail-stop: nothing after a failed transfer
+        match (&r, outcome_code(res[0])) {
+            (Err(SignError::UnexpectedResponse { .. }), Outcome::Unexpected) | (Err(SignError::Bus { .. }), Outcome::BusError) => {}
+            _ => panic!("transfer error not propagated"),
+        }
+    } else {
+        assert!(b.phase == Phase::Done);
+        match (&r, b.outcome) {
+            (Ok(PageFlipStyle::Automatic), Outcome::OkAutomatic) => {}
+            (Ok(PageFlipStyle::Manual), Outcome::Ok) => {}
+            (Err(SignError::UnexpectedResponse { .. }), Outcome::Unexpected) => {}
+            (Err(SignError::Bus { .. }), Outcome::BusError) => {}
+            _ => panic!("outcome differs from the documented protocol"),
+        }
+    }
+    kani::cover!(matches!(r, Ok(PageFlipStyle::Automatic)) && n_pages == 2, "cov_automatic");
+    kani::cover!(matches!(r, Ok(PageFlipStyle::Manual)) && n_pages == 0, "cov_manual_empty_list");
+    kani::cover!(res[0] == 2, "cov_transfer_bus_error");
+    core::mem::forget(r);
 }
 
 // ------------------------------------------------------------------------------------------ shut_down
@@ -606,10 +1173,15 @@ fn c10_configure_if_needed_all_reply_scripts() {
 #[kani::proof]
 #[kani::unwind(4)]
 #[kani::stub(alloc::fmt::format, stub_format)]
+#[kani::stub(Sign::send_message, stub_send_message)]
+#[kani::stub(Sign::send_message_expect_response, stub_send_message_expect_response)]
 fn c10_shut_down_all_reply_scripts() {
     let own: u16 = kani::any();
     let bus = Bus::new(own, Kind::ShutDown, Phase::Goodbye);
     let rc = Rc::new(RefCell::new(bus));
+    unsafe {
+        MON = rc.as_ptr(); // the contract stubs of send_message / send_message_expect_response talk to the monitor directly
+    }
     let dynbus: Rc<RefCell<dyn SignBus>> = rc.clone();
     let sign = Sign::new(dynbus, Address(own), any_type());
     let r = sign.shut_down();
@@ -639,6 +1211,9 @@ fn run_switch(show: bool, max_polls: usize) {
     }
     bus.max_polls = max_polls;
     let rc = Rc::new(RefCell::new(bus));
+    unsafe {
+        MON = rc.as_ptr(); // the contract stubs of send_message / send_message_expect_response talk to the monitor directly
+    }
     let dynbus: Rc<RefCell<dyn SignBus>> = rc.clone();
     let sign = Sign::new(dynbus, Address(own), any_type());
     let r = if show { sign.show_loaded_page() } else { sign.load_next_page() };
@@ -654,6 +1229,8 @@ fn run_switch(show: bool, max_polls: usize) {
 #[kani::proof]
 #[kani::unwind(8)]
 #[kani::stub(alloc::fmt::format, stub_format)]
+#[kani::stub(Sign::send_message, stub_send_message)]
+#[kani::stub(Sign::send_message_expect_response, stub_send_message_expect_response)]
 fn c10_show_loaded_page_bounded() {
     run_switch(true, 5);
 }
@@ -661,6 +1238,8 @@ fn c10_show_loaded_page_bounded() {
 #[kani::proof]
 #[kani::unwind(8)]
 #[kani::stub(alloc::fmt::format, stub_format)]
+#[kani::stub(Sign::send_message, stub_send_message)]
+#[kani::stub(Sign::send_message_expect_response, stub_send_message_expect_response)]
 fn c10_load_next_page_bounded() {
     run_switch(false, 5);
 }
@@ -691,6 +1270,9 @@ fn run_send_pages<const N: usize>(dims: [(u32, u32); N], bufs: &[[u8; 64]; N]) {
         i += 1;
     }
     let rc = Rc::new(RefCell::new(bus));
+    unsafe {
+        MON = rc.as_ptr(); // the contract stubs of send_message / send_message_expect_response talk to the monitor directly
+    }
     let dynbus: Rc<RefCell<dyn SignBus>> = rc.clone();
     let sign = Sign::new(dynbus, Address(own), any_type());
     let r = sign.send_pages(&pages);
@@ -716,6 +1298,8 @@ fn run_send_pages<const N: usize>(dims: [(u32, u32); N], bufs: &[[u8; 64]; N]) {
 #[kani::proof]
 #[kani::unwind(5)]
 #[kani::stub(alloc::fmt::format, stub_format)]
+#[kani::stub(Sign::send_message, stub_send_message)]
+#[kani::stub(Sign::send_message_expect_response, stub_send_message_expect_response)]
 fn c09_send_pages_empty_list() {
     let bufs: [[u8; 64]; 0] = [];
     run_send_pages::<0>([], &bufs);
@@ -724,6 +1308,8 @@ fn c09_send_pages_empty_list() {
 #[kani::proof]
 #[kani::unwind(5)]
 #[kani::stub(alloc::fmt::format, stub_format)]
+#[kani::stub(Sign::send_message, stub_send_message)]
+#[kani::stub(Sign::send_message_expect_response, stub_send_message_expect_response)]
 fn c09_send_pages_one_page_16() {
     let bufs: [[u8; 64]; 1] = [kani::any()];
     run_send_pages::<1>([(2, 8)], &bufs);
@@ -732,6 +1318,8 @@ fn c09_send_pages_one_page_16() {
 #[kani::proof]
 #[kani::unwind(5)]
 #[kani::stub(alloc::fmt::format, stub_format)]
+#[kani::stub(Sign::send_message, stub_send_message)]
+#[kani::stub(Sign::send_message_expect_response, stub_send_message_expect_response)]
 fn c09_send_pages_one_page_48() {
     let bufs: [[u8; 64]; 1] = [kani::any()];
     run_send_pages::<1>([(30, 7)], &bufs);
@@ -740,9 +1328,400 @@ fn c09_send_pages_one_page_48() {
 #[kani::proof]
 #[kani::unwind(5)]
 #[kani::stub(alloc::fmt::format, stub_format)]
+#[kani::stub(Sign::send_message, stub_send_message)]
+#[kani::stub(Sign::send_message_expect_response, stub_send_message_expect_response)]
 fn c09_send_pages_two_pages_16_32() {
     let bufs: [[u8; 64]; 2] = [kani::any(), kani::any()];
     run_send_pages::<2>([(2, 8), (20, 8)], &bufs);
+}
+
+// ------------------------------------------------------------------------------------------ C08 (composition lemma)
+// C08 is not a contract of one function: it is the composition of the controller (real Sign == the protocol MONITOR above,
+// C10/C09/C11) with the virtual sign (real VirtualSign == spec_step, C13). The lemma below is over those two contract
+// vocabularies only: the monitor, run as a GENERATOR of the prescribed messages, against spec_step, from every abstract
+// sign state satisfying the C13 invariant. Pages are abstracted to (count, length): that chunks are the page bytes in
+// order is C09 (pointer identity), that the buffer/page holds the chunks in order is C13 (content obligations).
+mod sign_spec {
+    use super::{Address, ChunkCount, Data, Message, Offset, Operation};
+//@include shared_spec.rs
+}
+use sign_spec::{snap_inv, spec_step, Reply as SpecReply, Snap};
+
+static ZEROS: [u8; 16] = [0; 16];
+
+impl Bus {
+    /// the message the protocol prescribes in the current phase (generator form of check_message)
+    fn prescribed<'a>(&self) -> Option<Message<'a>> {
+        let own = Address(self.own);
+        Some(match self.phase {
+            Phase::IfNeededHello | Phase::Hello0 | Phase::HelloReadyReset | Phase::HelloUnconf => Message::Hello(own),
+            Phase::StartReset => Message::RequestOperation(own, Operation::StartReset),
+            Phase::FinishReset => Message::RequestOperation(own, Operation::FinishReset),
+            Phase::ReqRecv => Message::RequestOperation(own, OPS[self.recv_op]),
+            Phase::Data => {
+                let (_base, len) = self.items[self.item];
+                let off = self.chunk * 16;
+                let n = if len - off < 16 { len - off } else { 16 };
+                let d = match Data::try_new(&ZEROS[..n]) {
+                    Ok(d) => d,
+                    Err(e) => {
+                        core::mem::forget(e);
+                        panic!("try_new")
+                    }
+                };
+                Message::SendData(Offset(off as u16), d)
+            }
+            Phase::Count => Message::DataChunksSent(ChunkCount(self.chunks_sent)),
+            Phase::QueryResult | Phase::QueryStyle | Phase::SwitchQuery => Message::QueryState(own),
+            Phase::PixelsComplete => Message::PixelsComplete(own),
+            Phase::Goodbye => Message::Goodbye(own),
+            Phase::SwitchReq => Message::RequestOperation(own, OPS[self.sw_op]),
+            Phase::Done => return None,
+        })
+    }
+}
+
+fn rep_of(r: SpecReply) -> Rep {
+    match r {
+        SpecReply::None => Rep::None,
+        SpecReply::Report(a, s) => Rep::Report(a, s),
+        SpecReply::Ack(a, o) => Rep::Ack(a, o),
+    }
+}
+
+/// run the prescribed conversation of `bus` against the specified sign until the protocol says Done
+fn converse(bus: &mut Bus, sign: &mut Snap, cfg: (u8, u32, u32, usize), max_steps: usize) {
+    let mut k = 0;
+    while k < max_steps {
+        let m = match bus.prescribed() {
+            Some(m) => m,
+            None => return,
+        };
+        let (next, reply) = spec_step(sign, &m, cfg);
+        *sign = next;
+        bus.advance(rep_of(reply));
+        core::mem::forget(m);
+        k += 1;
+    }
+    assert!(bus.phase == Phase::Done); // the conversation ends within the bound
+}
+
+fn any_snap(own: u16) -> Snap {
+    let s = Snap {
+        address: own,
+        auto: kani::any(),
+        state: kani::any(),
+        n_pages: kani::any(),
+        pend_len: kani::any(),
+        chunks: kani::any(),
+        width: kani::any(),
+        height: kani::any(),
+        ty: kani::any(),
+    };
+    kani::assume(s.state < 13 && s.ty <= 11 && s.n_pages <= 8 && s.pend_len <= 4096);
+    kani::assume(snap_inv(&s));
+    s
+}
+
+fn cfg_for(ti: usize) -> (u8, u32, u32, usize) {
+    let t = TYPES[ti];
+    let (w, h) = t.dimensions();
+    (t.to_bytes()[0], w, h, ti)
+}
+
+/// C08 (1/3), configure: from EVERY abstract prior state satisfying the invariant (all 13 protocol states incl. abandoned
+/// half-finished transfers and a previous configuration as another type), for every sign type and both flip styles,
+/// the prescribed conversation succeeds and leaves the sign configured as that type with no pages.
+#[kani::proof]
+#[kani::unwind(11)]
+fn c08_configure_against_sign_machine() {
+    let own: u16 = kani::any();
+    let ti: usize = kani::any();
+    kani::assume(ti < 11);
+    let cfg = cfg_for(ti);
+    let mut sign = any_snap(own);
+    let s0 = sign.state;
+    let mut bus = Bus::new(own, Kind::Configure, Phase::Hello0);
+    bus.n_items = 1;
+    bus.items[0] = (core::ptr::null(), 16);
+    converse(&mut bus, &mut sign, cfg, 9);
+    assert!(bus.outcome == Outcome::Ok);
+    assert!(bus.attempt == 1);
+    assert!(configured_as(&sign, ti) && sign.state == sign_spec::CFG_RECV && sign.n_pages == 0);
+    kani::cover!(s0 == sign_spec::PIX_PROG, "cov_from_abandoned_pixel_transfer");
+    kani::cover!(s0 == sign_spec::READY_RESET, "cov_from_ready_to_reset");
+    kani::cover!(s0 == sign_spec::UNCONF, "cov_from_blank");
+}
+
+/// "configured as type ti, nothing buffered or counted": what configure establishes and send_pages preserves
+fn configured_as(s: &Snap, ti: usize) -> bool {
+    let cfg = cfg_for(ti);
+    s.ty == ti && (s.width, s.height) == (cfg.1, cfg.2) && s.pend_len == 0 && s.chunks == 0
+}
+
+/// C08 (2/3), send_pages for one sign type: from every state in which the sign is configured as that type and may
+/// receive pixels (right after configure, or loaded / shown / showing / in-progress after an earlier send, or after a
+/// failed transfer) with any number of old pages, sending n = 0..=2 pages of that sign's size succeeds without a
+/// retry, the sign holds exactly n pages, ends in PageLoaded (manual) / ShowingPages (automatic), and the call
+/// reports the matching flip style.
+fn send_pages_against_sign_machine(ti: usize) -> (bool, usize) {
+    let own: u16 = kani::any();
+    let cfg = cfg_for(ti);
+    let mut sign = any_snap(own);
+    let st = sign.state;
+    kani::assume(st == sign_spec::CFG_RECV || st == sign_spec::PIX_FAIL || st == sign_spec::LOADED || st == sign_spec::LOAD_PROG || st == sign_spec::SHOWN || st == sign_spec::SHOW_PROG || st == sign_spec::SHOWING);
+    kani::assume(configured_as(&sign, ti));
+    let auto = sign.auto;
+    let n: usize = kani::any();
+    kani::assume(n <= 2);
+    let page_len = sign_spec::padded_len(cfg.1, cfg.2);
+    let mut bus = Bus::new(own, Kind::SendPages, Phase::ReqRecv);
+    bus.recv_op = O_RECV_PIX;
+    bus.success = S_PIX_RECV;
+    bus.failure = S_PIX_FAIL;
+    bus.n_items = n;
+    bus.items[0] = (core::ptr::null(), page_len);
+    bus.items[1] = (core::ptr::null(), page_len);
+    converse(&mut bus, &mut sign, cfg, 2 * (page_len / 16) + 5);
+    assert!(bus.attempt == 1);
+    assert!(sign.n_pages == n && configured_as(&sign, ti));
+    if auto {
+        assert!(bus.outcome == Outcome::OkAutomatic && sign.state == sign_spec::SHOWING);
+    } else {
+        assert!(bus.outcome == Outcome::Ok && sign.state == sign_spec::LOADED);
+    }
+    (auto, n)
+}
+macro_rules! c08_send_pages_harness {
+    ($name:ident, $ti:expr, $unwind:expr) => {
+        #[kani::proof]
+        #[kani::unwind($unwind)]
+        fn $name() {
+            let (auto, n) = send_pages_against_sign_machine($ti);
+            kani::cover!(auto && n == 2, "cov_automatic_two_pages");
+            kani::cover!(!auto && n == 0, "cov_manual_empty_list");
+        }
+    };
+}
+// unwind = 2 * chunks per page + 7
+c08_send_pages_harness!(c08_send_pages_max3000_front_112x16, 0, 37);
+c08_send_pages_harness!(c08_send_pages_max3000_front_98x16, 1, 35);
+c08_send_pages_harness!(c08_send_pages_max3000_side_90x7, 2, 19);
+c08_send_pages_harness!(c08_send_pages_max3000_rear_30x10, 3, 15);
+c08_send_pages_harness!(c08_send_pages_max3000_rear_23x10, 4, 15);
+c08_send_pages_harness!(c08_send_pages_max3000_dash_30x7, 5, 13);
+c08_send_pages_harness!(c08_send_pages_horizon_front_160x16, 6, 49);
+c08_send_pages_harness!(c08_send_pages_horizon_front_140x16, 7, 43);
+c08_send_pages_harness!(c08_send_pages_horizon_side_96x8, 8, 21);
+c08_send_pages_harness!(c08_send_pages_horizon_rear_48x16, 9, 21);
+c08_send_pages_harness!(c08_send_pages_horizon_dash_40x12, 10, 19);
+
+// ---- C08 (2/3) again, as an INDUCTIVE argument: any number of pages of any of the 11 sizes, no long conversation.
+fn dims_as(s: &Snap, ti: usize) -> bool {
+    let cfg = cfg_for(ti);
+    s.ty == ti && (s.width, s.height) == (cfg.1, cfg.2)
+}
+
+/// one prescribed message against the specified sign
+fn step_once(bus: &mut Bus, sign: &mut Snap, cfg: (u8, u32, u32, usize)) {
+    let m = match bus.prescribed() {
+        Some(m) => m,
+        None => panic!("the protocol prescribes nothing further"),
+    };
+    let (next, reply) = spec_step(sign, &m, cfg);
+    *sign = next;
+    bus.advance(rep_of(reply));
+    core::mem::forget(m);
+}
+
+/// transfer invariant between two data chunks: the sign has buffered exactly the chunks of the current page, stored
+/// exactly the completed pages except the last completed one (which is stored when the next page starts or the count
+/// arrives), and counted exactly the chunks sent
+fn transfer_inv(bus: &Bus, sign: &Snap, ti: usize, page_len: usize) -> bool {
+    let per_page = page_len / 16;
+    sign.state == sign_spec::PIX_PROG
+        && dims_as(sign, ti)
+        && sign.chunks == bus.chunks_sent
+        && bus.item <= MAX_ITEMS
+        && bus.chunk < per_page
+        && bus.chunks_sent as usize == bus.item * per_page + bus.chunk
+        && if bus.chunk == 0 {
+            if bus.item == 0 { sign.pend_len == 0 && sign.n_pages == 0 } else { sign.pend_len == page_len && sign.n_pages == bus.item - 1 }
+        } else {
+            sign.pend_len == 16 * bus.chunk && sign.n_pages == bus.item
+        }
+}
+
+fn pixel_bus(own: u16, n: usize, page_len: usize, phase: Phase) -> Bus {
+    let mut bus = Bus::new(own, Kind::SendPages, phase);
+    bus.recv_op = O_RECV_PIX;
+    bus.success = S_PIX_RECV;
+    bus.failure = S_PIX_FAIL;
+    bus.n_items = n;
+    bus.items[0] = (core::ptr::null(), page_len);
+    bus.items[1] = (core::ptr::null(), page_len);
+    bus.items[2] = (core::ptr::null(), page_len);
+    bus
+}
+
+/// base case: the receive request is acknowledged in every state in which pixels may be sent to a configured sign, the
+/// old pages are dropped, and the transfer invariant holds at (page 0, chunk 0) — or the count is due for an empty list
+#[kani::proof]
+#[kani::unwind(5)]
+fn c08_transfer_base_case() {
+    let own: u16 = kani::any();
+    let ti: usize = kani::any();
+    kani::assume(ti < 11);
+    let cfg = cfg_for(ti);
+    let page_len = sign_spec::padded_len(cfg.1, cfg.2);
+    let n: usize = kani::any();
+    kani::assume(n <= 3);
+    let mut sign = any_snap(own);
+    let st = sign.state;
+    kani::assume(st == sign_spec::CFG_RECV || st == sign_spec::PIX_FAIL || st == sign_spec::LOADED || st == sign_spec::LOAD_PROG || st == sign_spec::SHOWN || st == sign_spec::SHOW_PROG || st == sign_spec::SHOWING);
+    kani::assume(configured_as(&sign, ti));
+    let mut bus = pixel_bus(own, n, page_len, Phase::ReqRecv);
+    step_once(&mut bus, &mut sign, cfg);
+    if n == 0 {
+        assert!(bus.phase == Phase::Count && sign.state == sign_spec::PIX_PROG && sign.n_pages == 0 && sign.pend_len == 0 && sign.chunks == 0 && dims_as(&sign, ti));
+    } else {
+        assert!(bus.phase == Phase::Data && bus.item == 0 && bus.chunk == 0);
+        assert!(transfer_inv(&bus, &sign, ti, page_len));
+    }
+    kani::cover!(n == 0, "cov_empty_list");
+    kani::cover!(n == 3 && st == sign_spec::SHOWING, "cov_resend_to_showing_sign");
+}
+
+/// inductive step: one data chunk from ANY point of ANY transfer (page index, chunk index symbolic) keeps the
+/// invariant, or ends the data phase with the last page buffered and all earlier pages stored
+#[kani::proof]
+#[kani::unwind(5)]
+fn c08_transfer_step_is_inductive() {
+    let own: u16 = kani::any();
+    let ti: usize = kani::any();
+    kani::assume(ti < 11);
+    let cfg = cfg_for(ti);
+    let page_len = sign_spec::padded_len(cfg.1, cfg.2);
+    let n: usize = kani::any();
+    kani::assume(n >= 1 && n <= 3);
+    let mut bus = pixel_bus(own, n, page_len, Phase::Data);
+    bus.item = kani::any();
+    bus.chunk = kani::any();
+    bus.chunks_sent = kani::any();
+    kani::assume(bus.item < n);
+    let mut sign = any_snap(own);
+    kani::assume(transfer_inv(&bus, &sign, ti, page_len));
+    let (item0, chunk0) = (bus.item, bus.chunk);
+    step_once(&mut bus, &mut sign, cfg);
+    if bus.phase == Phase::Data {
+        assert!(bus.item < n);
+        assert!(transfer_inv(&bus, &sign, ti, page_len));
+        assert!((bus.item, bus.chunk) == if (chunk0 + 1) * 16 < page_len { (item0, chunk0 + 1) } else { (item0 + 1, 0) });
+    } else {
+        // that was the last chunk of the last page
+        assert!(bus.phase == Phase::Count && item0 == n - 1);
+        assert!(sign.state == sign_spec::PIX_PROG && dims_as(&sign, ti));
+        assert!(sign.pend_len == page_len && sign.n_pages == n - 1);
+        assert!(sign.chunks == bus.chunks_sent && bus.chunks_sent as usize == n * (page_len / 16));
+    }
+    kani::cover!(bus.phase == Phase::Count && n == 3, "cov_last_chunk_of_third_page");
+    kani::cover!(bus.phase == Phase::Data && bus.chunk == 0 && bus.item == 1, "cov_page_boundary");
+    kani::cover!(ti == 6 && chunk0 == 20, "cov_21st_chunk_of_160x16");
+}
+
+/// final case: with all data sent, the count, the state query, PixelsComplete and the style query leave the sign with
+/// exactly the n pages, in PageLoaded / ShowingPages, and the call reports the matching flip style, without a retry
+#[kani::proof]
+#[kani::unwind(6)]
+fn c08_transfer_final_case() {
+    let own: u16 = kani::any();
+    let ti: usize = kani::any();
+    kani::assume(ti < 11);
+    let cfg = cfg_for(ti);
+    let page_len = sign_spec::padded_len(cfg.1, cfg.2);
+    let n: usize = kani::any();
+    kani::assume(n <= 3);
+    let mut bus = pixel_bus(own, n, page_len, Phase::Count);
+    bus.item = n;
+    bus.chunks_sent = (n * (page_len / 16)) as u16;
+    let mut sign = any_snap(own);
+    kani::assume(sign.state == sign_spec::PIX_PROG && dims_as(&sign, ti) && sign.chunks == bus.chunks_sent);
+    kani::assume(if n == 0 { sign.pend_len == 0 && sign.n_pages == 0 } else { sign.pend_len == page_len && sign.n_pages == n - 1 });
+    let auto = sign.auto;
+    converse(&mut bus, &mut sign, cfg, 4);
+    assert!(bus.attempt == 1);
+    assert!(sign.n_pages == n && configured_as(&sign, ti));
+    if auto {
+        assert!(bus.outcome == Outcome::OkAutomatic && sign.state == sign_spec::SHOWING);
+    } else {
+        assert!(bus.outcome == Outcome::Ok && sign.state == sign_spec::LOADED);
+    }
+    kani::cover!(auto && n == 3, "cov_automatic_three_pages");
+    kani::cover!(!auto && n == 0, "cov_manual_empty_list");
+}
+
+/// C08 (3/3), show / load-next: from the states send_pages ends in (and the ones these two operations end in), a
+/// manual sign moves to shown / loaded, an automatic sign is left alone, and both calls succeed.
+#[kani::proof]
+#[kani::unwind(8)]
+fn c08_show_and_load_next_against_sign_machine() {
+    let own: u16 = kani::any();
+    let ti: usize = kani::any();
+    kani::assume(ti < 11);
+    let cfg = cfg_for(ti);
+    let mut sign = any_snap(own);
+    let auto = sign.auto;
+    let show_first: bool = kani::any();
+    kani::assume(configured_as(&sign, ti));
+    kani::assume(if auto { sign.state == sign_spec::SHOWING } else { sign.state == sign_spec::LOADED || sign.state == sign_spec::SHOWN });
+    let n0 = sign.n_pages;
+    let mut round = 0;
+    while round < 2 {
+        let show = (round == 0) == show_first;
+        let mut bus = Bus::new(own, Kind::Switch, Phase::SwitchQuery);
+        if show {
+            bus.sw_target = S_SHOWN;
+            bus.sw_trigger = S_LOADED;
+            bus.sw_op = O_SHOW;
+        } else {
+            bus.sw_target = S_LOADED;
+            bus.sw_trigger = S_SHOWN;
+            bus.sw_op = O_LOAD_NEXT;
+        }
+        converse(&mut bus, &mut sign, cfg, 5);
+        assert!(bus.outcome == Outcome::Ok);
+        assert!(sign.state == if auto { sign_spec::SHOWING } else if show { sign_spec::SHOWN } else { sign_spec::LOADED });
+        assert!(sign.n_pages == n0 && configured_as(&sign, ti));
+        round += 1;
+    }
+    kani::cover!(!auto && show_first, "cov_manual_show_then_load");
+    kani::cover!(auto, "cov_automatic_noop");
+}
+
+/// C08, configure_if_needed: quantified over the prior states in which the sign either is not in a ready-to-receive
+/// state or records the same sign type (by contract it trusts a sign that reports itself ready).
+#[kani::proof]
+#[kani::unwind(12)]
+fn c08_configure_if_needed_against_sign_machine() {
+    let own: u16 = kani::any();
+    let ti: usize = kani::any();
+    kani::assume(ti < 11);
+    let cfg = cfg_for(ti);
+    let mut sign = any_snap(own);
+    let s0 = sign.state;
+    let ready = s0 == sign_spec::CFG_RECV || s0 == sign_spec::SHOWING || s0 == sign_spec::LOADED || s0 == sign_spec::SHOW_PROG || s0 == sign_spec::SHOWN || s0 == sign_spec::LOAD_PROG;
+    kani::assume(!ready || (sign.ty == ti && (sign.width, sign.height) == (cfg.1, cfg.2)));
+    let mut bus = Bus::new(own, Kind::Configure, Phase::IfNeededHello);
+    bus.n_items = 1;
+    bus.items[0] = (core::ptr::null(), 16);
+    converse(&mut bus, &mut sign, cfg, 10);
+    assert!(bus.outcome == Outcome::Ok);
+    assert!(sign.ty == ti && (sign.width, sign.height) == (cfg.1, cfg.2));
+    // the sign can now receive pixels: ReceivePixels is legal in its state
+    let st = sign.state;
+    assert!(st == sign_spec::CFG_RECV || st == sign_spec::SHOWING || st == sign_spec::LOADED || st == sign_spec::SHOWN || st == sign_spec::SHOW_PROG || st == sign_spec::LOAD_PROG);
+    kani::cover!(ready, "cov_trusted_ready_sign");
+    kani::cover!(!ready && s0 == sign_spec::PIX_PROG, "cov_abandoned_transfer_is_reset");
 }
 
 /// Vacuity canary for this package: must FAIL.
@@ -752,9 +1731,4 @@ fn canary_must_fail() {
     assert!(x != 7);
 }
 
-#[kani::proof] #[kani::unwind(5)] #[kani::stub(alloc::fmt::format, stub_format)]
-fn exp_v1() { unsafe { EXP_MODE = 1; } let bufs: [[u8; 64]; 0] = []; run_send_pages::<0>([], &bufs); }
-#[kani::proof] #[kani::unwind(5)] #[kani::stub(alloc::fmt::format, stub_format)]
-fn exp_v2() { unsafe { EXP_MODE = 2; } let bufs: [[u8; 64]; 0] = []; run_send_pages::<0>([], &bufs); }
-#[kani::proof] #[kani::unwind(5)] #[kani::stub(alloc::fmt::format, stub_format)]
-fn exp_v3() { unsafe { EXP_MODE = 3; } let bufs: [[u8; 64]; 0] = []; run_send_pages::<0>([], &bufs); }
+
